@@ -163,6 +163,7 @@ def run(prog, rep, tier='quick'):
         'requested order; (scaling) a, k degree 0 and P degree 1 in r; (cholesky) the three back ends solve with matching '
         'triangular flags / L then L^H. NOT decided: that the recursions satisfy T x = z numerically, stability, |k|<1.')
     rep.rule('order-update', 'in LEVINSON / HERMTOEP / TOEPLITZ no store A[i2] = f(.., A[i1], ..) follows a store to A[i1] in the same iteration (i1 != i2): the simultaneous order update must use the saved previous value')
+    rep.rule('admission', 'no guard on (len(r), order) raises on the grid len(r)=2..9, order=1..len(r)-1')
     rep.rule('dtype', 'HERMTOEP / TOEPLITZ: no complex value is stored into a real buffer and the solution is complex when the matrix or the right-hand side is')
     rep.rule('charge', 'no operation in the recursion combines different modulation charges; outputs carry the charges of their representation')
     rep.rule('guard', 'update of P -> (P<=0 -> raise) before the next division by P / end of iteration')
@@ -345,6 +346,12 @@ def run(prog, rep, tier='quick'):
                 rep.proved('cholesky', ch.qname, ctx + ' order', 'solve(L, B) then solve(conj(L).T, y)', where)
             else:
                 rep.violation('cholesky', ch.qname, ctx + ' order', 'the two triangular solves are not L y = B followed by L^H x = y', where)
+    # every order up to len(r)-1 is admitted
+    from ..d1rules import admission_of
+    grid = [{'Nr': n_, 'Pa': p_} for n_ in range(2, 10) for p_ in range(1, n_)]
+    admission_of(rep, prog, 'admission', 'levinson', 'LEVINSON',
+                 lambda: ([C.data(True, n=Aff.sym('Nr'), phase=False)], {'order': IntV(Aff.sym('Pa'), frozenset(['order']))}), grid,
+                 lambda w: 'len(r) = %d, order = %d' % (w['Nr'], w['Pa']), seen)
     rep.floor('charge-typed solvers', nq, 4)
     rep.floor('guarded updates', ng, 3)
     rep.floor('recurrence updates', nr, 3)
